@@ -7,8 +7,11 @@ Open Scope Z_scope.
 
 (* ---------------------------------------------------------------------------------------- *)
 (* reading of one reply against the history summary [s] of its writer.
-   [known s m] = m was received (its cache change was observed) or the writer declared it
-   unavailable (effective HEARTBEAT first_sn above it, valid GAP range or bitmap). *)
+   [known s m] (DECLARED) = m was received (its cache change was observed) or the writer declared it
+   unavailable (effective HEARTBEAT first_sn above it, valid GAP range or bitmap).
+   [recorded s m] (RECORDED) = the same, except that a GAP range that started above the reader's ack
+   base counts only up to that ack base + 256 (what irrelevant_changes_range takes note of since
+   repo fix c71c7f1).  recorded s m -> known s m (recorded_sub_known). *)
 Definition in_advertised (s : wspec) (x : Z) : Prop :=
   exists first last, s_adv s = Some (first, last) /\ first <= x <= last.
 
@@ -18,9 +21,9 @@ Definition ReplyP (w : Z) (s : wspec) (r : reply) : Prop :=
       w' = w
       /\ (forall m, 1 <= m < base -> known s m = true)              (* base truthful *)
       /\ 0 <= n <= 256
-      /\ (forall x, In x bits -> base <= x < base + n /\ known s x = false /\ in_advertised s x)
+      /\ (forall x, In x bits -> base <= x < base + n /\ recorded s x = false /\ in_advertised s x)
   | NackFrag w' sn base n bits c =>
-      w' = w /\ known s sn = false /\ in_advertised s sn /\ In sn (s_frag s)
+      w' = w /\ recorded s sn = false /\ in_advertised s sn /\ In sn (s_frag s)
       /\ 1 <= base /\ 0 <= n <= 256 /\ (forall x, In x bits -> base <= x < base + n) /\ In base bits
   end.
 
@@ -50,6 +53,9 @@ Proof. apply incr_from_ge. Qed.
 Lemma same_known_fields s s' :
   s_lo s' = s_lo s -> s_rng s' = s_rng s -> s_pts s' = s_pts s -> forall m, known s' m = known s m.
 Proof. intros A B C m. unfold known. now rewrite A, B, C. Qed.
+Lemma same_recorded_fields s s' :
+  s_lo s' = s_lo s -> s_rng s' = s_rng s -> s_pts s' = s_pts s -> forall m, recorded s' m = recorded s m.
+Proof. intros A B C m. rewrite !recorded_unfold. now rewrite A, B, C. Qed.
 
 Lemma reply_ok_sound w s r s' :
   reply_ok w s r = Some s' ->
@@ -116,11 +122,12 @@ Proof.
     + intros r' [<-|Hr]; [split; assumption|]. destruct (Q r' Hr) as [A B]. split; [|exact B].
       (* the knowledge part of the summary is the same for every reply of the list *)
       pose proof (same_known_fields s s1 F1 F2 F3) as Hk.
+      pose proof (same_recorded_fields s s1 F1 F2 F3) as Hr'.
       destruct r' as [w' base n bits c|w' sn base n bits c]; cbn [ReplyP] in *.
       * destruct A as (A1 & A2 & A3 & A4). split; [exact A1|]. split; [intros m Hm; rewrite <- Hk; now apply A2|].
         split; [exact A3|]. intros x Hx. destruct (A4 x Hx) as (X1 & X2 & X3). split; [exact X1|].
-        split; [now rewrite <- Hk|]. unfold in_advertised in *. now rewrite <- F4.
-      * destruct A as (A1 & A2 & A3 & A4 & A5). split; [exact A1|]. split; [now rewrite <- Hk|].
+        split; [now rewrite <- Hr'|]. unfold in_advertised in *. now rewrite <- F4.
+      * destruct A as (A1 & A2 & A3 & A4 & A5). split; [exact A1|]. split; [now rewrite <- Hr'|].
         split; [unfold in_advertised in *; now rewrite <- F4|]. split; [now rewrite <- F5|exact A5].
     + intros rest Hrest. cbn [map app incr_opt]. split; [exact C1|]. rewrite <- C2. now apply QC.
     + intros rest Hrest. cbn [flat_map]. rewrite <- app_assoc. specialize (QB rest Hrest).
@@ -141,16 +148,16 @@ Definition StepP (S : sstate) (o : op) (so : sobs) (S' : sstate) : Prop :=
       let s1 := add_pts (spec_input s o) (map snd (so_adds so)) in
       (forall r, In r (so_replies so) -> ReplyP w s1 r /\ writer_of r = w)
       /\ (effective_hb s o = true ->
-          (* the lowest unknown number of the advertised range is requested *)
+          (* the lowest number of the advertised range that is not recorded is requested *)
           match o with
           | Hb _ first last _ _ =>
-              forall m0, Z.max first 1 <= m0 <= last -> known s1 m0 = false ->
-                (forall m, Z.max first 1 <= m < m0 -> known s1 m = true) ->
+              forall m0, Z.max first 1 <= m0 <= last -> recorded s1 m0 = false ->
+                (forall m, Z.max first 1 <= m < m0 -> recorded s1 m = true) ->
                 requested m0 (so_replies so) = true
           | _ => True
           end)
       /\ adds_okb o (so_adds so) = true
-      /\ exists s2, S' = supd S w s2 /\ replies_ok w s1 (so_replies so) = Some s2
+      /\ exists s2, S' = supd S w (set_sbase s2 (so_base so)) /\ replies_ok w s1 (so_replies so) = Some s2
   end.
 
 Lemma step_ok_sound S o so S' : step_ok S o so = Some S' -> StepP S o so S'.
@@ -164,7 +171,8 @@ Proof.
     + intros He. rewrite He in El. cbn [andb] in El. apply negb_false_iff in El.
       destruct o as [| |w first last count final|]; try exact I.
       cbn [lowest_requested_ok] in El. intros m0 Hr Hk Hb.
-      pose proof (lowest_unknown_char _ _ m0 (proj1 Hr) Hk Hb) as Hl. rewrite Hl in El.
+      pose proof (lowest_unknown_char (rec_view _) _ m0 (proj1 Hr) Hk Hb) as Hl.
+      unfold lowest_unrecorded in El. rewrite Hl in El.
       destruct (Z.leb_spec m0 last); [exact El|lia].
     + exists s2. split; reflexivity.
   - destruct (so_replies so), (so_adds so); try discriminate. intros H; inversion H; auto.
@@ -276,7 +284,7 @@ Qed.
 
 Theorem bits_missing c i o so s s1 : wf_case c = true -> summary_at c i o so s s1 ->
   forall w base n bits cnt, In (AckNack w base n bits cnt) (so_replies so) ->
-  0 <= n <= 256 /\ forall x, In x bits -> base <= x < base + n /\ known s1 x = false /\ in_advertised s1 x.
+  0 <= n <= 256 /\ forall x, In x bits -> base <= x < base + n /\ recorded s1 x = false /\ in_advertised s1 x.
 Proof.
   intros Hwf Hs w base n bits cnt Hin. destruct Hs as (Si0 & A & B & C & D & E).
   destruct (step_at c i o so s s1 Hwf (ex_intro _ Si0 (conj A (conj B (conj C (conj D E)))))) as (Si & S' & Hsi & HP).
@@ -287,8 +295,8 @@ Qed.
 Theorem lowest_requested c i w first last count final so s s1 : wf_case c = true ->
   summary_at c i (Hb w first last count final) so s s1 ->
   effective_hb s (Hb w first last count final) = true ->
-  forall m0, Z.max first 1 <= m0 <= last -> known s1 m0 = false ->
-    (forall m, Z.max first 1 <= m < m0 -> known s1 m = true) ->
+  forall m0, Z.max first 1 <= m0 <= last -> recorded s1 m0 = false ->
+    (forall m, Z.max first 1 <= m < m0 -> recorded s1 m = true) ->
     requested m0 (so_replies so) = true.
 Proof.
   intros Hwf Hs He. destruct Hs as (Si0 & A & B & C & D & E).
@@ -298,7 +306,7 @@ Qed.
 
 Theorem nackfrag_sound c i o so s s1 : wf_case c = true -> summary_at c i o so s s1 ->
   forall w sn base n bits cnt, In (NackFrag w sn base n bits cnt) (so_replies so) ->
-  w = op_writer o /\ known s1 sn = false /\ in_advertised s1 sn /\ In sn (s_frag s1)
+  w = op_writer o /\ recorded s1 sn = false /\ in_advertised s1 sn /\ In sn (s_frag s1)
   /\ 1 <= base /\ 0 <= n <= 256 /\ (forall x, In x bits -> base <= x < base + n) /\ In base bits.
 Proof.
   intros Hwf Hs w sn base n bits cnt Hin. destruct Hs as (Si0 & A & B & C & D & E).
@@ -400,6 +408,134 @@ Lemma witness_nonvacuous :
      = Some {| so_replies := [NackFrag 1 1 2 2 [2; 3] 0; AckNack 1 1 2 [2] 1]; so_adds := [];
                so_base := 1; so_nch := 0; so_sum := 0 |}.
 Proof. vm_compute. split; reflexivity. Qed.
+
+(* ---------------------------------------------------------------------------------------- *)
+(* DECLARED vs RECORDED (repo fix c71c7f1) *)
+
+(* a number that was declared but is not recorded lies in the far part (ack base + 256 and above) of
+   a GAP range that started above the ack base the reader had when the GAP arrived *)
+Lemma declared_not_recorded_far s m : known s m = true -> recorded s m = false ->
+  exists r, In r (s_rng s) /\ g_ackbase r < g_from r /\ g_from r <= m /\ g_ackbase r + 256 <= m < g_until r.
+Proof.
+  intros Hk Hr. rewrite recorded_unfold in Hr. apply known_cases in Hk.
+  apply orb_false_iff in Hr as [Hr Hp]. apply orb_false_iff in Hr as [Hlo Hr].
+  destruct Hk as [A|[(r & A & B)|A]].
+  - apply Z.ltb_ge in Hlo. lia.
+  - exists r. split; [exact A|].
+    assert (Hc : (g_from r <=? m) && (m <? g_cut r) = false).
+    { destruct ((g_from r <=? m) && (m <? g_cut r)) eqn:E; [|reflexivity].
+      assert (existsb (fun r => (g_from r <=? m) && (m <? g_cut r)) (s_rng s) = true)
+        by (apply existsb_exists; exists r; split; assumption). congruence. }
+    apply andb_false_iff in Hc as [Hc|Hc]; [apply Z.leb_gt in Hc; lia|]. apply Z.ltb_ge in Hc.
+    unfold g_cut in Hc. destruct (Z.leb_spec (g_from r) (g_ackbase r)); lia.
+  - apply memz_false in Hp. contradiction.
+Qed.
+
+(* the model states behind the summaries of a run: at every step the reader state is related (Inv)
+   to the summary state the oracle has at that step *)
+Lemma run_states : forall ops st S i o Si, forallb op_okb ops = true -> Inv st S ->
+  nth_error ops i = Some o -> nth_error (states S ops (mrun true st ops)) i = Some Si ->
+  exists sti, Inv sti Si
+    /\ nth_error (mrun true st ops) i = Some (mk_sobs (fst (step true sti o)) o (snd (step true sti o))).
+Proof.
+  induction ops as [|o0 ops IH]; intros st S i o Si Hok HI Ho Hs; [destruct i; discriminate|].
+  cbn [forallb] in Hok. apply andb_true_iff in Hok as [H1 H2].
+  cbn [mrun states] in *. destruct (step_sound st S o0 H1 HI) as (S' & E & HI'). rewrite E in Hs.
+  destruct i as [|i]; cbn [nth_error] in *.
+  - inversion Ho; inversion Hs; subst. exists st. split; [exact HI|reflexivity].
+  - apply (IH _ S' i o Si H2 HI' Ho Hs).
+Qed.
+
+(* replies only come from HEARTBEATs *)
+Lemma step_replies_hb st o r : In r (replies_of (snd (step true st o))) ->
+  exists w first last count final p, o = Hb w first last count final
+    /\ (first <=? MAX_SN) && (last <=? MAX_SN) = true /\ r_prox st w = Some p /\ p_hb p < count
+    /\ In (OReply r) (snd (handle_heartbeat true st w p first last count final)).
+Proof.
+  assert (Hprd : forall st w sn ts pay, replies_of (snd (process_received_data st w sn ts pay)) = []).
+  { intros st0 w sn ts pay. unfold process_received_data. destruct (r_prox st0 w); [|reflexivity].
+    destruct (should_ignore_change p sn); reflexivity. }
+  destruct o as [w sn ts pay|w df ts|w first last count final|w start base numbits bits]; cbn [step].
+  - destruct (negb (sn <=? MAX_SN)); [intros []|]. rewrite Hprd. intros [].
+  - destruct (negb ((F.df_sn df <=? MAX_SN) && (F.df_start df <=? MAX_FN))); [intros []|].
+    destruct (negb (datafrag_deser_ok df)); [intros []|].
+    destruct (F.new_datafrag _ df 0) as [|[fa' [bytes|]]]; cbn [snd]; try (intros H; cbn in H; tauto).
+    rewrite Hprd. intros [].
+  - destruct ((first <=? MAX_SN) && (last <=? MAX_SN)) eqn:Hacc; cbn [negb]; [|intros []].
+    destruct (r_prox st w) as [p|] eqn:Ep; [|intros []].
+    intros Hin. exists w, first, last, count, final, p. split; [reflexivity|]. split; [exact Hacc|]. split; [exact Ep|].
+    assert (Hin' : In (OReply r) (snd (handle_heartbeat true st w p first last count final))).
+    { unfold replies_of in Hin. apply in_flat_map in Hin as (x & Hx & Hr). destruct x; cbn in Hr; try tauto.
+      destruct Hr as [<-|[]]. exact Hx. }
+    split; [|exact Hin'].
+    destruct (Z.lt_ge_cases (p_hb p) count) as [|Hge]; [assumption|exfalso].
+    unfold handle_heartbeat in Hin'. destruct (Z.leb_spec count (p_hb p)); [destruct Hin'|lia].
+  - destruct (negb ((start <=? MAX_SN) && (base <=? MAX_SN))); [intros []|].
+    destruct (r_prox st w) as [p|]; [|intros []]. unfold handle_gap.
+    destruct (start <=? 0); [intros []|]. destruct (base <=? 0); intros [].
+Qed.
+
+Lemma hb_no_adds st w p first last count final :
+  adds_of (snd (handle_heartbeat true st w p first last count final)) = [].
+Proof.
+  unfold handle_heartbeat. destruct (count <=? p_hb p); [reflexivity|].
+  destruct (negb _ || negb final); [|reflexivity].
+  destruct (hb_sns st w _ _) as [[b n] m]. cbn [snd]. rewrite adds_of_mark, adds_of_app, adds_of_map. reflexivity.
+Qed.
+
+(* the model's ACKNACK base: everything below it is even RECORDED (taken note of by the reader), not
+   only DECLARED.  This is about the model (it needs the reader state); the oracle that judges the
+   implementation checks DECLARED only, as the property text asks. *)
+Theorem base_recorded c i o so s s1 : wf_case c = true -> summary_at c i o so s s1 ->
+  forall w base n bits cnt, In (AckNack w base n bits cnt) (so_replies so) ->
+  forall m, m < base -> recorded s1 m = true.
+Proof.
+  intros Hwf (Si & A & B & C & D & E) w base n bits cnt Hin m Hm.
+  destruct (run_states _ _ _ _ _ _ Hwf (Inv_init (c_matched c)) A C) as (sti & HI & Hso).
+  unfold L in B. rewrite B in Hso. inversion Hso; subst so. clear Hso.
+  cbn [so_replies mk_sobs] in Hin.
+  destruct (step_replies_hb _ _ _ Hin) as (w0 & first & last & count & final & p & -> & Hacc & Hp & Hcnt & Hin').
+  cbn [op_writer] in D.
+  destruct (Inv_InvW sti Si w0 p s HI Hp D) as [Hrel _].
+  destruct (hb_ack_base sti w0 p s first last count final Hrel Hacc Hcnt _ _ _ _ _ Hin') as [_ Hrec].
+  subst s1. cbn [so_adds mk_sobs step]. rewrite Hacc, Hp. cbn [negb]. rewrite hb_no_adds. cbn [map]. rewrite add_pts_nil.
+  now apply Hrec.
+Qed.
+
+(* the behaviour made visible: writer 1, reader's ack base 1.
+     step 0  GAP [5, 1000)            recorded only within the window: 5..256 (252 markers)
+     step 1  HEARTBEAT(1..1200)       ACKNACK base 1, bits 1..4
+     2..5    DATA 1..4                ack base 257
+     step 6  HEARTBEAT(1..1200)       ACKNACK base 257, bits 257..512: the far part of the GAP is
+                                      requested again (300 was declared, is not recorded)
+     step 7  GAP [257, 1000)          the renewed GAP starts at the ack base: taken whole, base 1000
+     step 8  HEARTBEAT(1..1200)       ACKNACK base 1000, bits 1000..1200 *)
+Definition gw_pay : list Z := [0; 1; 0; 0; 7; 0; 0; 0].
+Definition gw_case : case :=
+  {| c_matched := [1];
+     c_ops := [Gap 1 5 1000 0 []; Hb 1 1 1200 1 false;
+               Data 1 1 None gw_pay; Data 1 2 None gw_pay; Data 1 3 None gw_pay; Data 1 4 None gw_pay;
+               Hb 1 1 1200 2 false; Gap 1 257 1000 0 []; Hb 1 1 1200 3 false] |}.
+Definition gw_acks (so : sobs) : list (Z * Z * Z * Z) :=   (* base, numBits, first and last bit *)
+  flat_map (fun r => match r with
+                     | AckNack _ b n bits _ => [(b, n, hd 0 bits, last bits 0)]
+                     | NackFrag _ _ _ _ _ _ => []
+                     end) (so_replies so).
+Definition gw_summary (i : nat) : option wspec :=
+  match nth_error (St gw_case) i with Some Si => Si 1 | None => None end.
+Lemma gap_window_example :
+  wf_case gw_case = true
+  /\ map (fun so => (so_base so, so_nch so)) (L gw_case)
+     = [(1, 252); (1, 252); (2, 253); (3, 254); (4, 255); (257, 256); (257, 256); (1000, 256); (1000, 256)]
+  /\ map gw_acks (L gw_case)
+     = [[]; [(1, 4, 1, 4)]; []; []; []; []; [(257, 256, 257, 512)]; []; [(1000, 201, 1000, 1200)]]
+  /\ (* before step 7: 256 declared and recorded, 300 declared but not recorded, summary base 257 *)
+     option_map (fun s => (known s 256, recorded s 256, known s 300, recorded s 300, s_base s)) (gw_summary 7)
+     = Some (true, true, true, false, 257)
+  /\ (* before step 8: the renewed GAP from the ack base is recorded whole *)
+     option_map (fun s => (recorded s 300, recorded s 999, recorded s 1000, s_base s)) (gw_summary 8)
+     = Some (true, true, false, 1000).
+Proof. vm_compute. repeat split. Qed.
 
 (* ---------------------------------------------------------------------------------------- *)
 (* the [OPanic] outcome of the fragment assembler (C05's debug-build arithmetic) is never produced:
